@@ -15,7 +15,9 @@ RULE = (
     "For each site (caltech_acn, jpl_acn, office001_acn) x EVSE type (basic / real) x transformer "
     "capacities drawn from (10, 400) kW - low enough that the transformer, not the 32 A EVSE "
     "limit, binds - Hypothesis generates a weight vector (uniform, sparse, one-phase-heavy, "
-    "balanced with jitter) over the stations behind one transformer and an ascent order; the "
+    "balanced with jitter; the network comes from keyword or positional arguments, the deprecated "
+    "CaltechACN alias, as ChargingNetwork or StochasticNetwork, with EVSE voltage 208/240/120, and in "
+    "a quarter of the cases a lenient what-if query of the same shape was asked first) over the stations behind one transformer and an ascent order; the "
     "schedule is scaled by bisection on network.is_feasible (phase-aware, or linear=True in a "
     "quarter of the cases; on the network as built or, in a quarter of the cases, as restored from "
     "its JSON dump) to the feasibility frontier, improved by coordinate ascent (each "
@@ -89,22 +91,49 @@ def topology(site):
 
 
 def build(spec):
-    kw = {"basic_evse": spec["basic"]}
-    if spec["site"] == "caltech":
-        net = sites.caltech_acn(transformer_cap=spec["caps"]["main"], **kw)
-    elif spec["site"] == "office001":
-        net = sites.office001_acn(transformer_cap=spec["caps"]["main"], **kw)
-    else:
-        net = sites.jpl_acn(first_transformer_cap=spec["caps"]["first"], third_fourth_transformer_cap=spec["caps"]["third_fourth"], **kw)
+    """The site network through one of its public entry points: keyword or positional arguments,
+    the deprecated CaltechACN alias, ChargingNetwork or StochasticNetwork as network type, an
+    EVSE voltage other than the default (the transformer ratings are defined at nominal voltage)."""
+    import contextlib
+    import io
+
+    from acnportal.acnsim import ChargingNetwork
+    from acnportal.contrib.acnsim import StochasticNetwork
+
+    entry = spec.get("entry", "keyword")
+    ntype = StochasticNetwork if spec.get("stochastic_type") else ChargingNetwork
+    volt = spec.get("evse_voltage", 208)
+    basic = spec["basic"]
+    with contextlib.redirect_stdout(io.StringIO()):
+        if spec["site"] == "caltech":
+            cap = spec["caps"]["main"]
+            if entry == "alias":
+                net = sites.CaltechACN(basic_evse=basic, voltage=volt, transformer_cap=cap, network_type=ntype)
+            elif entry == "alias_positional":
+                net = sites.CaltechACN(basic, volt, cap, ntype)
+            elif entry == "positional":
+                net = sites.caltech_acn(basic, volt, cap, ntype)
+            else:
+                net = sites.caltech_acn(transformer_cap=cap, basic_evse=basic, voltage=volt, network_type=ntype)
+        elif spec["site"] == "office001":
+            cap = spec["caps"]["main"]
+            if entry == "positional":
+                net = sites.office001_acn(basic, volt, cap, ntype)
+            else:
+                net = sites.office001_acn(transformer_cap=cap, basic_evse=basic, voltage=volt, network_type=ntype)
+        else:
+            c1, c2 = spec["caps"]["first"], spec["caps"]["third_fourth"]
+            if entry == "positional":
+                net = sites.jpl_acn(basic, volt, c1, c2, ntype)
+            else:
+                net = sites.jpl_acn(first_transformer_cap=c1, third_fourth_transformer_cap=c2, basic_evse=basic, voltage=volt, network_type=ntype)
     if spec.get("json"):
         # the site model as it comes back from a saved file
         import warnings
 
-        from acnportal.acnsim import ChargingNetwork
-
         with warnings.catch_warnings():
             warnings.simplefilter("ignore")
-            net = ChargingNetwork.from_json(net.to_json())
+            net = type(net).from_json(net.to_json())
     return net
 
 
@@ -156,6 +185,16 @@ def prop(spec, rec):
     labels = {spec["site"], "basic" if spec["basic"] else "real_evse", "linear" if linear else "phase_aware", "kind_" + spec["kind"]}
     if spec.get("json"):
         labels.add("loaded_from_json")
+    labels.add("entry_" + spec.get("entry", "keyword"))
+    if spec.get("stochastic_type"):
+        labels.add("stochastic_network_type")
+    if spec.get("evse_voltage", 208) != 208:
+        labels.add("non_default_evse_voltage")
+    if spec.get("prior_lenient"):
+        # an earlier what-if question with generous tolerances (same shape) on the same object
+        for lin in (False, True):
+            net.is_feasible(np.asarray(S, dtype=float).reshape(-1, 1), linear=lin, violation_tolerance=5.0, relative_tolerance=0.25)
+        labels.add("lenient_query_first")
     worst = 0.0
     # scale to the frontier
     if not feas(S):
@@ -248,6 +287,10 @@ def cases(draw):
         "linear": draw(st.integers(0, 3)) == 0,
         "snap_down": draw(st.booleans()),
         "json": draw(st.integers(0, 3)) == 0,
+        "entry": draw(st.sampled_from(["keyword", "keyword", "positional", "alias", "alias_positional"] if site == "caltech" else ["keyword", "keyword", "positional"])),
+        "stochastic_type": draw(st.integers(0, 4)) == 0,
+        "evse_voltage": draw(st.sampled_from([208, 208, 208, 240, 120])),
+        "prior_lenient": draw(st.integers(0, 3)) == 0,
     }
 
 
@@ -296,7 +339,7 @@ def prop_structure(spec, rec):
 
 def subchecks(tier):
     return [
-        Given("frontier", cases(), prop, quick=320, thorough=30000, floors={"near_rating": 0.2, "at_rating": 0.1, "linear": 0.1, "real_evse": 0.12}, jobs_quick=8),
+        Given("frontier", cases(), prop, quick=320, thorough=30000, floors={"near_rating": 0.2, "at_rating": 0.1, "linear": 0.1, "real_evse": 0.12, "lenient_query_first": 0.1, "entry_alias": 0.03}, jobs_quick=8),
         Exhaustive("structure", structure_items, prop_structure, jobs_quick=2),
     ]
 
